@@ -61,6 +61,11 @@ http://www.hyperelliptic.org/efd. Там же можно найти соглаш
 #define ec2SeemsOn3(a, ec)\
 	(ec2SeemsOnA(a, ec) && gf2IsIn(ecZ(a, (ec)->f->n), (ec)->f))
 
+#define ec2SetO(a, ec)\
+	(qrSetUnity(ecX(a), (ec)->f),\
+		qrSetZero(ecY(a, (ec)->f->n), (ec)->f),\
+		qrSetZero(ecZ(a, (ec)->f->n), (ec)->f))
+
 /*
 *******************************************************************************
 Кривая в проективных координатах Лопеса -- Дахаба (LD):
@@ -205,7 +210,7 @@ static void ec2DblLD(word b[], const word a[], const ec_o* ec, void* stack)
 	// za == 0 или xa == 0? => b <- O
 	if (qrIsZero(ecZ(a, n), ec->f) || qrIsZero(ecX(a), ec->f))
 	{
-		qrSetZero(ecZ(b, n), ec->f);
+		ec2SetO(b, ec);
 		return;
 	}
 	// t1 <- xa za [A]
@@ -259,7 +264,7 @@ static void ec2DblALD(word b[], const word a[], const ec_o* ec, void* stack)
 	// xa == 0? => b <- O
 	if (qrIsZero(ecX(a), ec->f))
 	{
-		qrSetZero(ecZ(b, n), ec->f);
+		ec2SetO(b, ec);
 		return;
 	}
 	// zb <- xa^2 [C]
@@ -340,7 +345,7 @@ static void ec2AddLD(word c[], const word a[], const word b[],
 			ec2DblLD(c, a, ec, stack);
 		// t3 != t4 => a == -b => c <- O
 		else
-			qrSetZero(ecZ(c, n), ec->f);
+			ec2SetO(c, ec);
 		return;
 	}
 	// t5 <- t1 + t2 [E]
@@ -427,7 +432,7 @@ static void ec2AddALD(word c[], const word a[], const word b[],
 			ec2DblALD(c, b, ec, stack);
 		// t1 != 0 => a == -b => c <- O
 		else
-			qrSetZero(ecZ(c, n), ec->f);
+			ec2SetO(c, ec);
 		return;
 	}
 	// t3 <- t2 za [C]
